@@ -250,6 +250,10 @@ class Executor:
         self._ordinals: Dict[int, str] = {}
 
     def is_virtual(self, meth: str) -> bool:
+        """a call self.<meth>() is left as a dynamic dispatch when a subclass of the context class overrides the method
+        AND the context class's own definition is abstract (pass / docstring / raise NotImplementedError): the table
+        is then about the base class's algorithm, whatever the hook does.  When the context class defines the hook
+        concretely the table is about instances of exactly that class, and the hook is its own."""
         if self.ctx is None:
             return False
         k = ('virt', meth)
@@ -259,7 +263,30 @@ class Executor:
                 if c is not self.ctx and self.ctx in c.mro() and meth in c.methods:
                     v = True
                     break
+            if v:
+                own = self.ctx.lookup(meth)
+                if own is not None:
+                    body = [s_ for s_ in own.node.body if not (isinstance(s_, ast.Expr) and isinstance(s_.value, ast.Constant))]
+                    abstract = (not body or all(isinstance(s_, ast.Pass) for s_ in body) or
+                                (len(body) == 1 and isinstance(body[0], ast.Raise) and body[0].exc is not None and
+                                 'NotImplemented' in ast.unparse(body[0].exc)) or
+                                any('abstractmethod' in d for d in own.decorators()))
+                    v = abstract
             self._ordinals[k] = v
+        return self._ordinals[k]
+
+    def instance_attrs(self) -> set:
+        """names assigned as self.<name> anywhere in the context class or its bases"""
+        k = ('iattrs',)
+        if k not in self._ordinals:
+            out = set()
+            if self.ctx is not None:
+                for c in self.ctx.mro():
+                    for g in c.methods.values():
+                        for n in walk_local(g.node):
+                            if isinstance(n, ast.Attribute) and isinstance(n.ctx, ast.Store) and isinstance(n.value, ast.Name) and n.value.id == 'self':
+                                out.add(n.attr)
+            self._ordinals[k] = out
         return self._ordinals[k]
 
     def ordinal(self, fctx: FuncInfo, node, st: Optional['State'] = None) -> str:
@@ -815,11 +842,18 @@ class Executor:
         for nm, sym in it.counters.get('__carried__%s' % oid, []):
             if isinstance(s, ast.For) and nm in _names_in_target(s.target):
                 continue
+            if not _reads_first(s, nm, fctx.node):
+                continue        # only read after the loop: what it held before the loop is not an input of the loop
             v0 = pre_locals.get(nm)
             init_effects.append(Effect('write', target=sym, value=term(v0) if v0 is not None else '@undef', lineno=ln,
                                        epoch=st.epoch, extra='loop-entry'))
         it.effects.extend(init_effects)
         after = it.fork()
+        if isinstance(s, ast.For):
+            # after the loop its target variables hold the values of the last iteration (or of the one that broke
+            # out): named by position, not by the programmer's identifier
+            for k_, nm_ in enumerate(_names_in_target(s.target)):
+                after.locals[nm_] = name('@L%sx%d' % (oid, k_ + 1))
         iter_state = it.fork()
         iter_state.lits = []
         iter_state.effects = []
@@ -931,6 +965,12 @@ class Executor:
         for h in s.handlers:
             st0.lits.append((('bit', '@raised:%s' % self.ordinal(fctx, h, st0)), False, h.lineno))
         normal = self.exec_block(s.body, st0, fctx)
+        for h in s.handlers:
+            # except self._ERRORS:  with a class-level tuple of exception classes
+            if isinstance(h.type, ast.Attribute) and isinstance(h.type.value, ast.Name) and h.type.value.id in ('self', 'cls') and self.ctx is not None:
+                r = self.ctx.lookup_attr(h.type.attr)
+                if r is not None and isinstance(r[1], (ast.Tuple, ast.Name)):
+                    h.type = copy.deepcopy(r[1])
         handled_types = []
         for h in s.handlers:
             if h.type is None:
@@ -1338,6 +1378,13 @@ class _Ev:
                 r = self.inline(g, [], {}, st, as_expr=True)
                 if r is not None:
                     return r
+        # a class-level constant (a private name nobody assigns on the instance): its value
+        if isinstance(v, ast.Name) and v.id in ('self', 'cls') and self.x.ctx is not None and attr.startswith('_') and not attr.startswith('__'):
+            r = self.x.ctx.lookup_attr(attr)
+            if r is not None and attr not in self.x.instance_attrs():
+                val = r[1]
+                if isinstance(val, ast.Constant) or (isinstance(val, (ast.Tuple, ast.List)) and all(isinstance(e_, (ast.Constant, ast.Name)) for e_ in val.elts)):
+                    return [(st, copy.deepcopy(val), None)]
         # module attribute through import alias (random.uniform etc. handled in Call)
         return [(st, self.tag(node, key, st), None)]
 
@@ -1615,6 +1662,8 @@ class _Ev:
             r = x.repo.resolve_name(self.fctx.module, fname)
             if r and r[0] == 'ext':
                 fname = r[1]
+            if fname == 'vars' and len(args) == 1 and not kwargs:
+                return self.load_attr(args[0], '__dict__', st)                 # vars(o) is o.__dict__
             if fname == 'getattr' and len(args) == 2 and not kwargs and isinstance(args[1], ast.Constant) and isinstance(args[1].value, str) \
                     and args[1].value.isidentifier():
                 return self.load_attr(args[0], args[1].value, st)              # getattr(o, 'x') is o.x
@@ -1963,6 +2012,22 @@ def _name_seq(fn):
     visit(fn)
     _SEQ_CACHE[k] = (fn, seq)
     return seq
+
+
+def _reads_first(loop, nm: str, fn) -> bool:
+    """the first occurrence of `nm` in the loop's test + body (evaluation order) is a read"""
+    seq = _name_seq(fn)
+    nodes = []
+    if isinstance(loop, ast.While):
+        nodes.append(loop.test)
+    nodes.extend(loop.body)
+    occ = []
+    for top in nodes:
+        for n in ast.walk(top):
+            if isinstance(n, ast.Name) and n.id == nm and id(n) in seq:
+                occ.append(seq[id(n)])
+    occ.sort()
+    return bool(occ) and occ[0][1]
 
 
 def _live_in(loop, nm: str, fn) -> bool:
